@@ -14,6 +14,8 @@ pub struct Task {
     pub has_direction: bool,
     /// Total size of the input files (used to keep the big tasks rare).
     pub weight: usize,
+    /// A task anthem refuses with an error (kept for C18's error-output determinism; useless for C10/C20).
+    pub refused: bool,
 }
 
 fn parse_line(id: String, dir: &Path, words: &[&str]) -> Option<Task> {
@@ -42,7 +44,7 @@ fn parse_line(id: String, dir: &Path, words: &[&str]) -> Option<Task> {
     }
     let weight = files.iter().map(|f| fs::metadata(dir.join(f)).map(|m| m.len() as usize).unwrap_or(0)).sum();
     let has_direction = options.iter().any(|o| o.starts_with("--direction"));
-    Some(Task { id, dir: dir.to_path_buf(), files, options, has_direction, weight })
+    Some(Task { id, dir: dir.to_path_buf(), files, options, has_direction, weight, refused: false })
 }
 
 fn walk(dir: &Path, out: &mut Vec<PathBuf>) {
@@ -86,8 +88,11 @@ pub fn load(repo: &Path, verif: &Path) -> Vec<Task> {
         if words.is_empty() || words[0].starts_with('#') {
             continue;
         }
-        let dir = corpus.join(words[0]);
-        if let Some(task) = parse_line(format!("corpus:{}#{n}", words[0]), &dir, &words[1..]) {
+        let refused = words[0].starts_with('!');
+        let name = words[0].trim_start_matches('!');
+        let dir = corpus.join(name);
+        if let Some(mut task) = parse_line(format!("corpus:{name}#{n}"), &dir, &words[1..]) {
+            task.refused = refused;
             tasks.push(task);
         }
     }
